@@ -32,17 +32,24 @@ Findings on the unchanged code (families computed from the failing layout):
     nested-branch-below-unknown-dir, git-tree-nested-bzr-control-files,
     bzr-tree-git-control-dir.
 
-Mutants this was built against (scratch worktrees): see MUTANTS at the end of
-this docstring (filled in by the mutation self-test).
-MUTANTS:
-  m1 iter_deletables: `if ignored:` dropped (ignored files deleted with --unknown)
-  m2 _filter_out_nested_controldirs: the ControlDir.open probe result ignored (nested branches deleted)
-  m3 delete_items: dry_run test inverted / dropped
-  m4 bzr extras(): unversioned test dropped for names present in a sibling directory / control-name test dropped
-  m5 is_detritus: `.tmp` -> `tmp` (suffix table change; T1 + oracle)
-  m6 git _iter_files_recursive: tree-reference pruning dropped (files of nested git repositories deleted)
-  m7 delete_items: isdir(path) -> os.path.isdir (follows links: rmtree on a link raises)
-  h1 harmless: _filter_out_nested_controldirs rewritten as a comprehension with a helper
+The model has two final filters: the one found in the code and the proposed
+repair (`keepFixed`); the harness probes which one the tree implements
+(`filter_mode`) so that a repair of /repo does not break the correspondence.
+
+Mutants this was built against (scratch worktrees; all caught by the oracle
+with a concrete layout unless noted):
+  m1 iter_deletables: `if ignored:` -> `if ignored or unknown:` (ignored files deleted with --unknown)
+  m2 _filter_out_nested_controldirs: probes the parent directory instead of the candidate
+     (top-level nested branches deleted)
+  m3 delete_items: directories are rmtree'd regardless of dry_run
+  m4 bzr extras(): control-file-name test skipped at the tree root (the tree's own .bzr deleted)
+  m5 is_detritus: ".tmp" -> "tmp" (T1 equality fails, T2 differs, oracle: file `tmp` deleted)
+  m6 git _iter_files_recursive: tree-reference test on the basename instead of the relative path
+     (needs a nested git repository at depth >= 2 with files in it)
+  m7 clean_tree: `from os.path import isdir` (follows links: rmtree on a link to a directory raises)
+  m8 git extras(): index paths in subdirectories not subtracted (versioned files deleted)
+  h1 harmless: filter rewritten as comprehension + helper, iter_deletables as one expression (clean)
+  fix: the proposed repair (stays clean, the three finding families disappear, model mode `x`)
 """
 import ast
 import os
@@ -54,7 +61,7 @@ from vlib import env
 THEOREMS = [
     "selected_at", "deletables_subset", "never_versioned", "dry_run_noop", "declined_noop",
     "inside_tree", "extras_antichain", "clean_exact", "clean_only_selected",
-    "nested_branch_top_level_kept", "git_nested_git_kept",
+    "rejected_candidate_kept", "nested_branch_top_level_kept", "git_nested_git_kept", "fixed_filter_protects",
     "nested_branch_deep_witness", "git_tree_nested_bzr_witness", "bzr_tree_git_controldir_witness",
 ]
 T1_EQUALITY_THEOREMS = ["is_detritus_gen_eq"]
@@ -466,6 +473,24 @@ def run_real(root, o):
     return sel, raised, getattr(rec, "error", None)
 
 
+_MODE = []
+
+
+def filter_mode():
+    """which _filter_out_nested_controldirs the tree implements: 'o' as found (only the candidate
+    itself is probed), 'x' the proposed repair (nothing that is, is in, or contains a control
+    directory); probed on a bzr tree with an unknown directory holding a branch one level down"""
+    if not _MODE:
+        spec = dict(fmt="2a", entries=[["unk", "d", False], ["unk/sub", "d", False], ["unk/sub/.bzr", "B", False]],
+                    rules=[], ignore_versioned=False)
+        base = env.fresh_dir("c46probe")
+        materialise(spec, os.path.join(base, "P"), os.path.join(base, "outside"))
+        sel, _raised, _err = run_real(os.path.join(base, "P"), (True, False, False, True, None))
+        shutil.rmtree(base, ignore_errors=True)
+        _MODE.append("o" if "unk" in sel else "x")
+    return _MODE[0]
+
+
 def is_det_name(rel):
     return rel.endswith(DETRITUS_SUFFIXES)
 
@@ -585,7 +610,7 @@ def run_layout(ctx, spec, viol, cases, lines, outs, opts_list):
         ctx.case(["clean", fmt, layout, enc_opts(o)], nontrivial=bool(sel) and kept > 0)
         ctx.count("selected:%d" % min(len(sel), 5))
         cases.append(case)
-        lines.append("clean %s %s %s" % ("B" if fmt == "2a" else "G", enc_opts(o), layout))
+        lines.append("clean %s %s%s %s" % ("B" if fmt == "2a" else "G", enc_opts(o), filter_mode(), layout))
         outs.append("%s %s %s %s %s" % (extras, showpaths(sel), "T" if raised else "F",
                                        showpaths(after.keys()), showpaths(nroots)))
         if target != root:
@@ -639,6 +664,7 @@ def run(ctx):
         opts_list += [(u, i, d, False, True), (u, i, d, False, False)]
         run_layout(ctx, spec, viol, cases, lines, outs, opts_list)
     ctx.diff(cases, lines, outs)
+    ctx.extra["nested_filter"] = {"o": "as found", "x": "proposed repair"}[filter_mode()]
     # is_detritus on a name corpus
     names = detritus_corpus(ctx.rng)
     dl = ["det " + (nm.encode("latin-1").hex() or "-") for nm in names]
